@@ -38,6 +38,10 @@ def features(m, end):
         f.add('jump')
     if st['heart_returns']:
         f.add('heart_return')
+    if st['heart_after_heart']:
+        f.add('heart_after_heart')
+    if st['jump_back_over_first_read']:
+        f.add('jump_into_prefix_after_read')
     if st['stdin_reads']:
         f.add('stdin')
     if st['eof_reads']:
